@@ -52,6 +52,7 @@ def field_case(draw, small=False):
             "unit": draw(st.sampled_from(UNITS)), "vals": draw(st.sampled_from(["int", "wide", "wide"])),
             "seed": draw(st.integers(0, 2**31)), "rep": draw(st.sampled_from(REPS)),
             "extend_scalar": draw(st.booleans()), "save_subregions": draw(st.booleans()), "prelude": draw(st.booleans()),
+            "nonfinite": draw(st.integers(0, 3)) == 0,
             "ext": draw(st.sampled_from([".ovf", ".omf", ".ohf"]))}
 
 
@@ -65,6 +66,10 @@ def make_values(case, shape):
     special = [0.0, -0.0, 5e-324, -2.2e-308, 1.7976931348623157e308, 1e-45, 3.4e38, 1.0]
     for i, v in enumerate(special):
         if i < flat.size and rng.random() < 0.5:
+            flat[int(rng.integers(0, flat.size))] = v
+    if case.get("nonfinite"):
+        # a field may hold NaN or infinities (masked cells, divisions): every representation has to carry them
+        for v in (float("nan"), float("inf"), float("-inf"))[: max(1, min(3, flat.size))]:
             flat[int(rng.integers(0, flat.size))] = v
     return flat.reshape(shape)
 
@@ -95,8 +100,8 @@ def expected_values(arr, rep):
 def values_match(got, want, rep):
     if rep == "txt":
         with np.errstate(all="ignore"):
-            return np.allclose(got, want, rtol=1e-9, atol=0)
-    return np.array_equal(got, want)
+            return np.allclose(got, want, rtol=1e-9, atol=0, equal_nan=True)
+    return np.array_equal(got, want, equal_nan=True)
 
 
 def check_roundtrip(case):
